@@ -42,7 +42,8 @@ REACH = {t: ["co_value_cross_running", "co_raise_cross_running", "plain_none_cro
              "plain_raise_cross_running", "attr_cross_running", "owner_loop_calls", "cross_stopping", "cross_closed",
              "closed_coroutine_call", "yield_injected_in_dispatch", "four_caller_threads", "wrapper_looked_up_elsewhere",
              "queued_while_not_running_not_started", "queued_while_not_running_between_run_phases",
-             "fire_and_forget_executed", "handed_over_before_stop_running", "handed_over_before_stop_queued"] for t in ("quick", "thorough")}
+             "fire_and_forget_executed", "handed_over_before_stop_running", "handed_over_before_stop_queued",
+             "proxy_is_sole_holder_of_object"] for t in ("quick", "thorough")}
 SHARD_TIMEOUT = {"quick": 300, "thorough": 900}
 KINDS = ["co_value", "co_raise", "plain_none", "plain_value", "plain_raise", "attr"]
 
@@ -54,9 +55,9 @@ class ProbeError(Exception):
 class Probe:
     attr = 42
 
-    def __init__(self):
-        self.lock = threading.Lock()
-        self.log = []  # (tag, kind, thread ident, id(running loop) | None)
+    def __init__(self, log=None, lock=None):
+        self.lock = lock or threading.Lock()
+        self.log = log if log is not None else []  # (tag, kind, thread ident, id(running loop) | None)
 
     def _rec(self, tag, kind):
         try:
@@ -458,6 +459,44 @@ def run_shard(desc) -> Acc:
                     await one_call(proxy, r2.choice(KINDS), "owner", "running", r2, sv)
 
             await thread.run_coroutine_threadsafe(owner_burst())
+            # a proxy that is the ONLY holder of the object it wraps (ThreadsafeProxy(Target(), loop)):
+            # the object must live as long as the proxy, garbage collections notwithstanding
+            import gc
+
+            sole_log, sole_lock = [], threading.Lock()
+            sole = bt.ThreadsafeProxy(Probe(sole_log, sole_lock), owner_loop)
+            gc.collect()
+            sole_out = []
+            for kind_ in ("co_value", "plain_none", "co_raise", "co_value"):
+                tag_ = newtag()
+                try:
+                    r_ = getattr(sole, kind_)(tag_)
+                    if inspect.isawaitable(r_):
+                        try:
+                            r_ = ("value", await asyncio.wait_for(r_, 3.0))
+                        except ProbeError as e_:
+                            r_ = ("ProbeError", e_.args[0])
+                    else:
+                        r_ = ("returned", r_)
+                except BaseException as e_:  # noqa: BLE001
+                    r_ = (type(e_).__name__, str(e_)[:60])
+                sole_out.append((tag_, kind_, r_))
+                gc.collect()
+            await thread.run_coroutine_threadsafe(asyncio.sleep(0.01))
+            with sole_lock:
+                sole_exec = {t_: (i_, l_) for (t_, k_, i_, l_) in sole_log}
+            for (tag_, kind_, r_) in sole_out:
+                acc.case()
+                want_ = {"co_value": ("value", ("v", tag_)), "co_raise": ("ProbeError", tag_), "plain_none": ("returned", None)}[kind_]
+                case_ = {"phase": "running", "kind": kind_, "caller": "other", "proxy": "sole holder of the wrapped object", "outcome": repr(r_)}
+                if r_ != want_ or tag_ not in sole_exec:
+                    acc.violation("C20/exec/call-not-executed-once",
+                                  f"{kind_} through a proxy that is the only holder of its object gave {r_} "
+                                  f"({'executed' if tag_ in sole_exec else 'never executed'}), expected {want_}", case_)
+                elif sole_exec[tag_] != (owner_ident[0], owner_loop_id):
+                    acc.violation("C20/thread/body-ran-off-the-owner-loop", f"{kind_} ran on {sole_exec[tag_]}", case_)
+                else:
+                    acc.hit("proxy_is_sole_holder_of_object")
             for th in ths:
                 while th.is_alive():
                     await asyncio.sleep(0.01)
